@@ -74,8 +74,15 @@ func main() {
 
 	short := func(p string) string { return strings.TrimPrefix(strings.TrimPrefix(p, modPath), "/") }
 	var goFuncs, chanMakes, polyAccess, retained, paramWrites, paramAppends []string
+	type appendSite struct {
+		qual string
+		fn   types.Object
+		idx  int
+	}
+	var appendSites []appendSite
 	// sync_globals_mutated / sync_globals_method_called: interprocedural may-write analysis (see below)
-	mutated, methodCalled := mayWriteAnalysis(fset, pkgs)
+	mutated, methodCalled, an := mayWriteAnalysis(fset, pkgs)
+
 	locksFirst, defersUnlock := false, false
 	goCloseLast := true
 
@@ -99,14 +106,24 @@ func main() {
 				}
 				// slice-typed parameters of this function
 				sliceParams := map[types.Object]bool{}
+				paramIdx := map[types.Object]int{} // index in the analysis' numbering: receiver (if any) first
 				if fd.Type.Params != nil {
+					pi := 0
+					if fd.Recv != nil {
+						pi = 1
+					}
 					for _, fld := range fd.Type.Params.List {
+						if len(fld.Names) == 0 {
+							pi++
+						}
 						for _, nm := range fld.Names {
 							if obj := p.info.Defs[nm]; obj != nil {
+								paramIdx[obj] = pi
 								if _, ok := obj.Type().Underlying().(*types.Slice); ok {
 									sliceParams[obj] = true
 								}
 							}
+							pi++
 						}
 					}
 				}
@@ -134,6 +151,7 @@ func main() {
 						if id, ok := x.Fun.(*ast.Ident); ok && id.Name == "append" && len(x.Args) >= 1 {
 							if aid, ok := x.Args[0].(*ast.Ident); ok && sliceParams[p.info.Uses[aid]] {
 								paramAppends = append(paramAppends, qual)
+								appendSites = append(appendSites, appendSite{qual, p.info.Defs[fd.Name], paramIdx[p.info.Uses[aid]]})
 							}
 						}
 						if id, ok := x.Fun.(*ast.Ident); ok && id.Name == "make" && len(x.Args) >= 1 {
@@ -171,6 +189,13 @@ func main() {
 			}
 		}
 	}
+	// append on a slice parameter matters when the slice can be one that a caller of the library passed in
+	var apiAppends []string
+	for _, st := range appendSites {
+		if st.fn != nil && an.fromAPI(an.posKey(st.fn.Pos()), st.idx) {
+			apiAppends = append(apiAppends, st.qual)
+		}
+	}
 	uniq := func(l []string) []string {
 		sort.Strings(l)
 		var r []string
@@ -205,6 +230,7 @@ func main() {
 	fmt.Fprintf(&sb, "(* functions that store a slice-typed parameter itself (not a copy) into a struct field *)\nDefinition sync_slice_params_retained : list string := %s.\n", coqStrs(uniq(retained)))
 	fmt.Fprintf(&sb, "(* exported functions that assign to an element of a slice-typed parameter *)\nDefinition sync_slice_params_written : list string := %s.\n", coqStrs(uniq(paramWrites)))
 	fmt.Fprintf(&sb, "(* functions that call append on a slice-typed parameter (may write beyond its length into the caller's array) *)\nDefinition sync_slice_params_appended : list string := %s.\n", coqStrs(uniq(paramAppends)))
+	fmt.Fprintf(&sb, "(* ... of these, the functions whose appended parameter may be bound, through calls inside the library, to a slice that an exported function received from its caller *)\nDefinition sync_api_slices_appended : list string := %s.\n", coqStrs(uniq(apiAppends)))
 	txt := sb.String()
 	old, err := os.ReadFile(os.Args[1])
 	if err == nil && string(old) == txt {
@@ -1655,7 +1681,44 @@ func (c *ctx) walk(root ast.Node) {
 
 // ---- driver ----------------------------------------------------------------
 
-func mayWriteAnalysis(fset *token.FileSet, pkgs []*pkgInfo) (mutated, methodCalled []string) {
+// fromAPI: may parameter idx of function fnKey be bound (through any chain of calls inside the library) to an
+// argument that an exported function or method received from its caller?
+func (a *analysis) fromAPI(fnKey string, idx int) bool {
+	type node struct {
+		s string
+		i int
+	}
+	seen := map[node]bool{}
+	work := []node{{fnKey, idx}}
+	for len(work) > 0 {
+		n := work[len(work)-1]
+		work = work[:len(work)-1]
+		if seen[n] {
+			continue
+		}
+		seen[n] = true
+		if fn := a.fns[n.s]; fn != nil && fn.decl.Name.IsExported() && !(fn.hasRecv && n.i == 0) {
+			return true
+		}
+		pa := a.PA[root{k: 'P', s: n.s, i: n.i}]
+		if a.debug {
+			fmt.Fprintf(os.Stderr, "FROMAPI visit %s #%d pa=%v\n", n.s, n.i, pa != nil)
+		}
+		if pa == nil {
+			continue
+		}
+		for _, set := range []rset{pa.d, pa.i} {
+			for r := range set {
+				if r.k == 'P' || r.k == 'Q' {
+					work = append(work, node{r.s, r.i})
+				}
+			}
+		}
+	}
+	return false
+}
+
+func mayWriteAnalysis(fset *token.FileSet, pkgs []*pkgInfo) (mutated, methodCalled []string, an *analysis) {
 	a := &analysis{fset: fset, fns: map[string]*fnInfo{}, local: map[types.Object]*val{}, lobj: map[string]types.Object{},
 		derived: map[types.Object]map[types.Object]bool{}, FA: map[string]*val{}, GA: map[string]*val{}, PA: map[root]*val{},
 		mutated: map[string]string{}, mcalled: map[string]string{}, debug: os.Getenv("GOSYNC_DEBUG") != ""}
@@ -1761,6 +1824,7 @@ func mayWriteAnalysis(fset *token.FileSet, pkgs []*pkgInfo) (mutated, methodCall
 	for n := range a.mcalled {
 		methodCalled = append(methodCalled, n)
 	}
+	an = a
 	return
 }
 
